@@ -158,3 +158,10 @@ Theorem registrations_are_written_by_registration_calls_only : registrations_wri
 Proof. exact StructureTie.now_registrations_written_by_registration_calls. Qed.
 Check registrations_are_written_by_registration_calls_only : registrations_written_by_registration_calls = true.
 Print Assumptions registrations_are_written_by_registration_calls_only.
+
+(* T-gen tie of reset_ignores_state: Story::reset_state replaces the StoryState without reading the old one and then
+   runs reset_globals — regenerated from the sources on every run *)
+Theorem reset_state_replaces_the_state : reset_replaces_state = true.
+Proof. exact StructureTie.now_reset_replaces_state. Qed.
+Check reset_state_replaces_the_state : reset_replaces_state = true.
+Print Assumptions reset_state_replaces_the_state.
